@@ -21,8 +21,6 @@ var boundsTable = map[string]tabEntry{
 		"res[i] was made with len(p) in the enclosing iteration and j ranges over p"},
 	"pebbles.(Results).Emit/‹pebbles.Results›[0]": {1,
 		"non-batch mode: parseRequest builds exactly one request when IsBatchMode is false and the accumulator is made with len(rs.Requests)"},
-	"queryer.(*MultiOpQueryer).Query$1/‹[]*requests.Request›[‹int›*‹*queryer.MultiOpQueryer›.maxBatchSize:(‹int›+1)*‹*queryer.MultiOpQueryer›.maxBatchSize]": {1,
-		"taken only when (i+1)*m <= lInputs (else-branch of the test above)"},
 	"queryer.(*MultiOpQueryer).Query$2/‹[]map[string]interface{}›[(‹*queryer.chunkResponse›.Index+1)*‹*queryer.MultiOpQueryer›.maxBatchSize:]": {1,
 		"guarded by (i+1)*m < lInputs and len(acc) == lInputs is an invariant of the splice"},
 	"queryer.(*MultiOpQueryer).Query$2/‹[]map[string]interface{}›[0:‹*queryer.chunkResponse›.Index*‹*queryer.MultiOpQueryer›.maxBatchSize]": {1,
